@@ -287,6 +287,19 @@ def touches(term, op):
 # --------------------------------------------------------------------------
 
 
+LIGHT_WINDOW = 1500
+
+
+def _light_window(case, K):
+    """The per-point container fingerprint costs ~0.2 ms, so it is taken at every
+    point of a seeded window of LIGHT_WINDOW consecutive steps only."""
+    if K <= LIGHT_WINDOW:
+        return None
+    r = stream(case["seed"], "light")
+    a = r.randrange(0, K - LIGHT_WINDOW)
+    return (a, a + LIGHT_WINDOW)
+
+
 def _register_world(mon, world):
     for kind in KINDS:
         for i in range(len(world.term.get(kind, ()))):
@@ -426,6 +439,7 @@ def run(case):
         digest_every=digest_every,
         max_steps=60 * K + 50_000,
         light_every_step=bool(sk.get("light_every_step")) and sk["mode"] == "pre",
+        light_window=_light_window(case, K),
     )
     eng.run()
 
